@@ -8,9 +8,9 @@ import time
 VERUS = os.environ.get('VERUS', 'verus')
 
 
-def run_verus(rs, seed=0, rlimit=None, extra=(), threads=None, timeout=1800, funcs=None):
+def run_verus(rs, seed=0, rlimit=None, extra=(), threads=None, timeout=1800, funcs=None, multiple_errors=50):
     cmd = [VERUS, os.path.basename(rs), '--output-json', '--time', '--error-format=json', '--triggers-mode', 'silent',
-           '--multiple-errors', '50', '--smt-option', 'smt.random_seed=%d' % seed]
+           '--multiple-errors', str(multiple_errors), '--smt-option', 'smt.random_seed=%d' % seed]
     if rlimit:
         cmd += ['--rlimit', str(rlimit)]
     if threads:
